@@ -253,7 +253,7 @@ func goFamilies(tier string, run func(x *engine.Exec, c *GoCase)) []engine.Famil
 			ft := ft1[x.Choose(len(ft1))]
 			all := append(append([]string{}, tags...), tagSyntax...)
 			tg := all[x.Choose(len(all))]
-			mkStruct(x, "struct1", []gen.FieldType{ft}, []string{tg}, 8)
+			mkStruct(x, "struct1", []gen.FieldType{ft}, []string{tg}, 24)
 		}},
 		{Name: "struct2", Arity: []int{len(ft0), len(tags)}, Body: func(x *engine.Exec) {
 			f1 := ft0[x.Choose(len(ft0))]
